@@ -157,6 +157,12 @@ Theorem C04_source_facts :
   forallb snd gen_stream_senders_need_key = true /\ length gen_stream_senders_need_key = 6%nat /\
   (* "no key offered" is decided by comparing the whole key with a zero array, in every function that takes the no-key branch *)
   forallb snd gen_zero_key_tests = true /\ length gen_zero_key_tests = 6%nat /\
+  (* a pending open is closed without error only by the *OpenAck handlers; every other close passes a definite error *)
+  forallb snd gen_pending_open_closes = true /\ Nat.leb 8 (length gen_pending_open_closes) = true /\
+  (* the UDP ingress hands out a cached per-exit association only after its PendingOpen channel was closed *)
+  gen_cached_assoc_only_after_pending_open = true /\
+  (* transits forward the ephemeral key of every OPEN they relay *)
+  forallb snd gen_relay_keeps_ephemeral_key = true /\ length gen_relay_keeps_ephemeral_key = 3%nat /\
   (* the only code that zeroes a session key are the Close methods whose Encrypt/Decrypt check the closed flag under the same lock *)
   forallb (fun f => existsb (String.eqb f) allowed_key_zeroers) gen_session_key_zeroers = true /\
   (* the only code that assigns a session key field: the open-time setters and those two Close methods; nothing in exit, forward, shell or the file transfer streams *)
